@@ -2,6 +2,7 @@
 
 use crate::async_vfs::{AsyncFileSystem, AsyncVfsPath, SeekAndRead};
 use crate::error::VfsErrorKind;
+use crate::path::VfsFileType;
 use crate::{VfsMetadata, VfsResult};
 
 use async_std::io::Write;
@@ -120,6 +121,14 @@ impl AsyncFileSystem for AsyncOverlayFS {
 
     async fn create_dir(&self, path: &str) -> VfsResult<()> {
         self.ensure_has_parent(path).await?;
+        if self.exists(path).await? {
+            // occupied, possibly only in a lower layer which the upper layer cannot see
+            return Err(match self.metadata(path).await?.file_type {
+                VfsFileType::Directory => VfsErrorKind::DirectoryExists,
+                VfsFileType::File => VfsErrorKind::FileExists,
+            }
+            .into());
+        }
         self.write_path(path)?.create_dir().await?;
         let whiteout_path = self.whiteout_path(path)?;
         if whiteout_path.exists().await? {
